@@ -506,7 +506,11 @@ fn inject_arbitrary(plan: &mut LPlan, seed: u64, index: u64, count: u64) {
         if (ty == 0x8003 || ty == 0x9100) && len >= 8 {
             let base = plan.client.start_seq;
             for c in b[4..].chunks_exact_mut(4) {
-                if r.chance(0.7) {
+                if r.chance(0.15) {
+                    // boundary words: both ends of the 31-bit space, with and without the range flag
+                    let v: u32 = *r.pick(&[0u32, 1, 2, 999, 1000, 0x7FFF_FFFE, 0x7FFF_FFFF, 0x8000_0000, 0x8000_0001, 0x8000_03E7, 0xFFFF_FFFE, 0xFFFF_FFFF]);
+                    c.copy_from_slice(&v.to_be_bytes());
+                } else if r.chance(0.7) {
                     let mut v = base.wrapping_add(r.range(0, 3000) as u32) & 0x7FFF_FFFF;
                     if ty == 0x8003 && r.chance(0.2) {
                         v |= 0x8000_0000;
@@ -1202,6 +1206,29 @@ impl Check for WCheck {
                 t += r.range(3_000, 13_000);
             }
             plan.horizon_ms = 2_500 + secs * 1000 + 1_500;
+            if self.prop == "C17" && r.chance(0.5) {
+                // the mode is switched to classic at run time while the slow link is being reported
+                // weak; the classifier keeps judging every tick whatever the mode
+                let t = 2_500 + r.range(5_000, 12_000);
+                plan.actions.push(TimedAction { t, kind: Action::Control { line: r#"{"jsonrpc":"2.0","method":"set_mode","params":{"mode":"classic"}}"#.into() } });
+                if r.chance(0.5) {
+                    // ... and the stream stops a little later: under the throughput floor nothing is weak
+                    let stop = t + r.range(2_000, 6_000);
+                    for a in plan.actions.iter_mut() {
+                        if let Action::Burst { n, pps, .. } = &mut a.kind {
+                            *n = (*n).min(((stop - a.t) * *pps as u64 / 1000) as u32);
+                        }
+                    }
+                    plan.horizon_ms = stop + 8_000;
+                } else {
+                    plan.horizon_ms = plan.horizon_ms.max(t + 21_000);
+                    for a in plan.actions.iter_mut() {
+                        if let Action::Burst { n, pps, .. } = &mut a.kind {
+                            *n = (*n).max(((plan.horizon_ms - a.t) * *pps as u64 / 1000) as u32);
+                        }
+                    }
+                }
+            }
             plan.actions.sort_by_key(|a| a.t);
         }
         if self.prop == "C19" {
